@@ -612,6 +612,7 @@ func (e *escaper) escapeListForReentry(c context, n *parse.ListNode) (context, *
 // wants to rewrite its action, template and text nodes the way e has recorded.
 func (e *escaper) sameEdits(e1 *escaper, n *parse.ListNode) error {
 	var err error
+	forms := map[string]int{}
 	var walk func(l *parse.ListNode)
 	walk = func(l *parse.ListNode) {
 		if l == nil {
@@ -637,7 +638,7 @@ func (e *escaper) sameEdits(e1 *escaper, n *parse.ListNode) error {
 				if !ok1 {
 					s1 = m.Name
 				}
-				if s != s1 && e.rewriteOf(s, 0) != e1.rewriteOf(s1, 0) {
+				if s != s1 && e.rewriteOf(s, forms) != e1.rewriteOf(s1, forms) {
 					err = fmt.Errorf("%v is called in different contexts in the first and in later iterations (%q, %q)", m, s, s1)
 				}
 			case *parse.TextNode:
@@ -668,14 +669,35 @@ func (e *escaper) sameEdits(e1 *escaper, n *parse.ListNode) error {
 	return err
 }
 
-// rewriteOf renders the named template the way it will read once the pending edits of e
+// rewriteOf identifies the way the named template will read once the pending edits of e
 // are applied to it and to the templates it calls: two context-specific copies of a
-// template with the same rendering are interchangeable.
-func (e *escaper) rewriteOf(name string, depth int) string {
-	t := e.template(name)
-	if t == nil || t.Tree == nil || depth > 8 {
-		return "?" + name
+// template with the same identification are interchangeable. Renderings are interned in
+// forms, which the two escapers whose views are compared share; a called template is
+// represented in the rendering of its caller by its own identification, and a call of a
+// template that is being rendered (recursion) by its distance on the stack, so that neither
+// the names of copies nor the number of calls make renderings differ or grow.
+func (e *escaper) rewriteOf(name string, forms map[string]int) string {
+	id, _ := e.render(name, forms, map[string]string{}, nil)
+	return id
+}
+
+// render is the implementation of rewriteOf. memo holds the identifications of the
+// templates rendered so far that do not depend on their callers; up is the number of
+// stack entries above the template itself that its rendering refers to.
+func (e *escaper) render(name string, forms map[string]int, memo map[string]string, stack []string) (id string, up int) {
+	for i := len(stack) - 1; i >= 0; i-- {
+		if stack[i] == name {
+			return fmt.Sprintf("^%d", len(stack)-i), len(stack) - i
+		}
 	}
+	if id, ok := memo[name]; ok {
+		return id, 0
+	}
+	t := e.template(name)
+	if t == nil || t.Tree == nil {
+		return "?" + name, 0
+	}
+	stack = append(stack, name)
 	var b strings.Builder
 	var walk func(l *parse.ListNode)
 	walk = func(l *parse.ListNode) {
@@ -697,7 +719,11 @@ func (e *escaper) rewriteOf(name string, depth int) string {
 				if s, ok := e.pendingTemplateEdit(m); ok {
 					callee = s
 				}
-				b.WriteString("{{template " + e.rewriteOf(callee, depth+1) + "}}")
+				cid, cup := e.render(callee, forms, memo, stack)
+				if cup-1 > up {
+					up = cup - 1
+				}
+				b.WriteString("{{template " + cid + "}}")
 			case *parse.TextNode:
 				if s, ok := e.pendingTextEdit(m); ok {
 					b.Write(s)
@@ -728,7 +754,18 @@ func (e *escaper) rewriteOf(name string, depth int) string {
 		}
 	}
 	walk(t.Tree.Root)
-	return b.String()
+	form := b.String()
+	n, ok := forms[form]
+	if !ok {
+		n = len(forms) + 1
+		forms[form] = n
+	}
+	id = fmt.Sprintf("#%d", n)
+	if up == 0 {
+		// Refers to nothing above itself: the same wherever it is called from.
+		memo[name] = id
+	}
+	return id, up
 }
 
 // isCopy reports whether name is the name of a context-specific copy that the engine has
